@@ -87,6 +87,7 @@ type kindFlow struct {
 	kills   func(ssa.Instruction) bool
 	in      map[*ssa.BasicBlock]KindSet
 	reached map[*ssa.BasicBlock]bool
+	full    func(cond ssa.Value, cur KindSet) (KindSet, KindSet)
 }
 
 // refine returns the kind sets on the true and false outcome of cond.
